@@ -46,6 +46,16 @@ class Val:
         return [p for p in self.parts if isinstance(p, NameRef)]
 
 
+def case_variant_of_origin(val, origin):
+    """some embedded name is under the origin only up to ASCII case (relativization would respell it)"""
+    o = tuple(origin)
+    for n in val.names():
+        full = n.labels if n.labels and n.labels[-1] == b"" else n.labels + o
+        if RN.is_subdomain(full, o) and full[len(full) - len(o):] != o:
+            return True
+    return False
+
+
 def ref_wire(parts, origin=None, canonical=False) -> bytes:
     out = bytearray()
     for p in parts:
